@@ -28,7 +28,34 @@ func Scan(data string, loc SourceLoc, delims []string) (tokens []Token) {
 	// TODO error on unterminated {{ and {%
 	// TODO probably an error when a tag contains a {{ or {%, at least outside of a string
 	p, pe := 0, len(data)
-	for _, m := range tokenMatcher.FindAllStringSubmatchIndex(data, -1) {
+	opaque := "" // "raw" or "comment", when the tag that opens such a block has just been scanned
+	endMatchers := map[string]*regexp.Regexp{}
+	for p < pe {
+		if opaque != "" {
+			// The body of a raw or comment block is not tokenised: it ends at the first end tag, whatever
+			// tag-like text stands before it ({% raw %}{%a {% endraw %} has the body "{%a ").
+			em := endMatchers[opaque]
+			if em == nil {
+				em = formEndMatcher(delims, "end"+opaque)
+				endMatchers[opaque] = em
+			}
+			if end := em.FindStringIndex(data[p:]); end != nil && end[0] > 0 {
+				body := data[p : p+end[0]]
+				tokens = append(tokens, Token{Type: TextTokenType, SourceLoc: loc, Source: body})
+				loc.LineNo += strings.Count(body, "\n")
+				p += end[0]
+			}
+			opaque = ""
+		}
+		m := tokenMatcher.FindStringSubmatchIndex(data[p:])
+		if m == nil {
+			break
+		}
+		for i := range m {
+			if m[i] >= 0 {
+				m[i] += p
+			}
+		}
 		verifhook.Step(verifhook.SiteScanToken)
 		ts, te := m[0], m[1]
 		if p < ts {
@@ -82,6 +109,9 @@ func Scan(data string, loc SourceLoc, delims []string) (tokens []Token) {
 					Type: TrimRightTokenType,
 				})
 			}
+			if tok.Name == "raw" || tok.Name == "comment" {
+				opaque = tok.Name
+			}
 		}
 		loc.LineNo += strings.Count(source, "\n")
 		p = te
@@ -92,25 +122,35 @@ func Scan(data string, loc SourceLoc, delims []string) (tokens []Token) {
 	return tokens
 }
 
+// formEndMatcher matches the tag with the given name, with or without arguments, the way the tag
+// alternative of the token matcher does.
+func formEndMatcher(delims []string, name string) *regexp.Regexp {
+	return regexp.MustCompile(fmt.Sprintf(`%s-?\s*%s(?:\s+(?:%v)+?)?\s*-?%s`,
+		regexp.QuoteMeta(delims[2]), name, tagArgExclusion(delims), regexp.QuoteMeta(delims[3])))
+}
+
 func formTokenMatcher(delims []string) *regexp.Regexp {
 	// On ending a tag we need to exclude anything that appears to be ending a tag that's nested
 	// inside the tag. We form the exclusion expression here.
 	// For example, if delims is default the exclusion expression is "[^%]|%[^}]".
 	// If tagRight is "TAG!RIGHT" then expression is
 	// [^T]|T[^A]|TA[^G]|TAG[^!]|TAG![^R]|TAG!R[^I]|TAG!RI[^G]|TAG!RIG[^H]|TAG!RIGH[^T]
+	tokenMatcher := regexp.MustCompile(
+		fmt.Sprintf(`%s-?\s*((?s:.+?))\s*-?%s|%s-?\s*(\w+)(?:\s+((?:%v)+?))?\s*-?%s`,
+			// QuoteMeta will escape any of these that are regex commands
+			regexp.QuoteMeta(delims[0]), regexp.QuoteMeta(delims[1]),
+			regexp.QuoteMeta(delims[2]), tagArgExclusion(delims), regexp.QuoteMeta(delims[3]),
+		),
+	)
+
+	return tokenMatcher
+}
+
+func tagArgExclusion(delims []string) string {
 	exclusion := make([]string, 0, len(delims[3]))
 	for idx, val := range delims[3] {
 		// quote both the literal prefix and the excluded character: delimiters may contain regexp metacharacters
 		exclusion = append(exclusion, regexp.QuoteMeta(delims[3][0:idx])+"[^"+regexp.QuoteMeta(string(val))+"]")
 	}
-
-	tokenMatcher := regexp.MustCompile(
-		fmt.Sprintf(`%s-?\s*((?s:.+?))\s*-?%s|%s-?\s*(\w+)(?:\s+((?:%v)+?))?\s*-?%s`,
-			// QuoteMeta will escape any of these that are regex commands
-			regexp.QuoteMeta(delims[0]), regexp.QuoteMeta(delims[1]),
-			regexp.QuoteMeta(delims[2]), strings.Join(exclusion, "|"), regexp.QuoteMeta(delims[3]),
-		),
-	)
-
-	return tokenMatcher
+	return strings.Join(exclusion, "|")
 }
